@@ -58,6 +58,14 @@ func (te *TypeEnv) ghostComp(name string, sorts []string) string {
 
 // mapComp returns the sort of a map / ghost component, or "".
 func (te *TypeEnv) mapComp(k string) string {
+	switch k {
+	case "ghost:llen": // container/list: number of elements of the list at a *List
+		return "(Array Loc (_ BitVec 64))"
+	case "ghost:lseq": // container/list: the elements (front first) of the list at a *List
+		return "(Array Loc (Array (_ BitVec 64) Loc))"
+	case "ghost:lpos": // container/list: index of an element in the list, -1 when not in it
+		return "(Array Loc (Array Loc (_ BitVec 64)))"
+	}
 	if strings.HasPrefix(k, "ghost:") {
 		return "G_" + sanitize(strings.TrimPrefix(k, "ghost:"))
 	}
@@ -83,8 +91,11 @@ func (te *TypeEnv) mapComp(k string) string {
 }
 
 func (te *TypeEnv) mapCompZero(k string) string {
-	if strings.HasPrefix(k, "maplen:") {
+	if strings.HasPrefix(k, "maplen:") || k == "ghost:llen" {
 		return "#x0000000000000000"
+	}
+	if k == "ghost:lpos" {
+		return "((as const (Array Loc (_ BitVec 64))) #xffffffffffffffff)"
 	}
 	if strings.HasPrefix(k, "mapdom:") {
 		var id int
@@ -103,6 +114,9 @@ func (te *TypeEnv) mapComps() []string {
 	}
 	for g := range te.ghosts {
 		ks = append(ks, g)
+	}
+	if te.usesLists {
+		ks = append(ks, "ghost:llen", "ghost:lseq", "ghost:lpos")
 	}
 	sort.Strings(ks)
 	return ks
